@@ -484,6 +484,35 @@ theorem spe_run_total {K : Type} [Field K] [LinearOrder K] [IsStrictOrderedRing 
       obtain ⟨b, hb1, _, hb3, hb4, _⟩ := hp j hj
       exact ⟨_, b, hb1, hb3, hb4⟩
 
+/-- non-vacuity of `spe_run_total`, local strategy (the `hlocal` bundle): 3 points with the neighbour lists `witnessNb`
+    (`k = 2`), identity shuffles, uniform draws `1/2` (floor values `⌊1/2·(2−1)⌋ = 0`), `tolerance = 1`, two iterations -/
+def totalExampleLocal : Input ℚ :=
+  { N := 3, d := 1, inPlace := false, zeroGuard := true, global := false, nb := witnessNb, nupReq := 1, maxIterReq := 2,
+    tol := 1, dist := fun _ _ => 1, y0 := #[#[0], #[1], #[3]], shuffle := fun _ => [0, 1, 2], unif := fun _ => 1 / 2,
+    sqrtO := fun x => if 0 ≤ x then x else 0, floorO := Int.floor, fl004 := 0 }
+
+example : ∃ st, run totalExampleLocal = .ok st :=
+  spe_run_total totalExampleLocal rfl (by norm_num [totalExampleLocal])
+    (fun x => by simp only [totalExampleLocal]; split <;> simp_all)
+    (fun _ => (by decide : List.Perm [0, 1, 2] (List.range 3)))
+    (fun h => by simp [totalExampleLocal] at h)
+    (fun _ => ⟨2, rfl, witnessNb_valid, fun c => by
+      have h : floorPick totalExampleLocal 2 c = 0 := by
+        simp only [floorPick, totalExampleLocal]
+        norm_num
+      rw [h]; decide⟩)
+
+/-- … and global strategy with a positive maximum distance on the unguarded shape (`halpha` through `maxDist ≠ 0`) -/
+def totalExampleGlobal : Input ℚ :=
+  { totalExampleLocal with global := true, zeroGuard := false, nb := [], nupReq := 5 }
+
+example : ∃ st, run totalExampleGlobal = .ok st :=
+  spe_run_total totalExampleGlobal rfl (by norm_num [totalExampleGlobal, totalExampleLocal])
+    (fun x => by simp only [totalExampleGlobal, totalExampleLocal]; split <;> simp_all)
+    (fun _ => (by decide : List.Perm [0, 1, 2] (List.range 3)))
+    (fun _ => Or.inr (by decide))
+    (fun h => by simp [totalExampleGlobal] at h)
+
 /-- the unguarded `alpha = 1.0 / max * sqrt(2.0)` divides by zero when all samples coincide (finding F-SPE-ZERODIST):
     two coinciding points already reach `Err.divzero` (in the code: `inf`, then `inf * 0 = nan` in every coordinate);
     with the guard `alpha` is always defined -/
@@ -566,7 +595,10 @@ open TapkeeVerif.RandProj TapkeeVerif.Fa
 variable {K : Type} [Field K] [CharZero K] {N D d : Nat}
 
 /-- Same Gaussian stream (and the same oracle value for `sqrt(D)`) ⇒ translating every sample by `t` does not
-    change the Random-Projection embedding.  Every stream, every `N` (including 0), every shift. -/
+    change the Random-Projection embedding.  Every stream, every `N` (including 0), every shift.
+    (The model `RandProj.embed` transcribes `compute_mean` and `project` — `Pᵀ(x_i − μ)` with `μ` computed from the data —
+    so the content is `mean (X+t) = mean X + t` pushed through `project`; that the code subtracts the mean is tied by the
+    correspondence run and its translation oracle, which is where "mean not subtracted" is caught.) -/
 theorem rp_translation_invariant (gauss : Nat → K) (sqrtD : K) (X : Mat N D K) (t : Vec D K) :
     embed (d := d) gauss sqrtD (translate X t) = embed gauss sqrtD X := by
   rw [embed_eq, embed_eq, centre_translate]
@@ -585,7 +617,15 @@ theorem rp_is_linear_in_centred_data (gauss : Nat → K) (sqrtD : K) (X : Mat N 
 
 /-- Factor Analysis with ANY EM map (the code's step, with its inverses / determinant / log as arbitrary oracles,
     is one instance), any initial loading matrix (any `Random()` stream) and any iteration bound: translating every
-    sample by `t` does not change the embedding. -/
+    sample by `t` does not change the embedding.
+    CAVEAT (stated so that the theorem is not over-read): this is true BY CONSTRUCTION of the model — `Fa.embedWith` is
+    defined to hand `centre X` to the EM map and to multiply `centre X` with the fitted loading, so the only mathematical
+    content is `centre (X + t·1ᵀ) = centre X` (`RandProj.centre_translate`: `mean (X+t) = mean X + t`, any field of
+    characteristic 0, any `N`).  That the CODE centres (`compute_mean` in `methods/factor_analysis.hpp`,
+    `X.col(i) = current_vector - mean_vector` in `routines/fa.hpp`) is NOT proved here; it is established by the
+    differential run of every check: `embed(X)` against the model on the same `Random()` stream (exact for 0 iterations,
+    2^-30 for the transcribed EM step), zero column means and the translation pair on the implementation's output — the
+    mutation "FA projects uncentred data" is caught there (`fa:translation`, `fa:colmean`), not by this theorem. -/
 theorem fa_translation_invariant
     (em : DMat N D K → EmState K D d → Nat → EmState K D d × Bool)
     (A0 : DMat D d K) (maxIt : Nat) (X : Mat N D K) (t : Vec D K) :
@@ -593,7 +633,9 @@ theorem fa_translation_invariant
   unfold embedWith
   rw [centre_translate]
 
-/-- and the output is (centred samples) × (fitted loading matrix) -/
+/-- and the output is (centred samples) × (fitted loading matrix).  Like `fa_translation_invariant` this restates the
+    definition of `Fa.embedWith` (it is what the model is, not a fact derived about the code); its tie to the code is the
+    `span` / `ycmp` comparison of the correspondence run. -/
 theorem fa_is_centred_times_loading
     (em : DMat N D K → EmState K D d → Nat → EmState K D d × Bool)
     (A0 : DMat D d K) (maxIt : Nat) (X : Mat N D K) :
